@@ -60,7 +60,7 @@ func (m *Mutex) state() H {
 }
 
 func (m *Mutex) Lock() {
-	if ex == nil {
+	if !live() {
 		m.real.Lock()
 		return
 	}
@@ -82,7 +82,7 @@ func (m *Mutex) Lock() {
 }
 
 func (m *Mutex) TryLock() bool {
-	if ex == nil {
+	if !live() {
 		return m.real.TryLock()
 	}
 	g := yield()
@@ -104,7 +104,7 @@ func (m *Mutex) TryLock() bool {
 }
 
 func (m *Mutex) Unlock() {
-	if ex == nil {
+	if !live() {
 		m.real.Unlock()
 		return
 	}
@@ -160,7 +160,7 @@ func (m *RWMutex) state() H {
 }
 
 func (m *RWMutex) Lock() {
-	if ex == nil {
+	if !live() {
 		m.real.Lock()
 		return
 	}
@@ -184,7 +184,7 @@ func (m *RWMutex) Lock() {
 }
 
 func (m *RWMutex) Unlock() {
-	if ex == nil {
+	if !live() {
 		m.real.Unlock()
 		return
 	}
@@ -217,7 +217,7 @@ func (m *RWMutex) Unlock() {
 }
 
 func (m *RWMutex) RLock() {
-	if ex == nil {
+	if !live() {
 		m.real.RLock()
 		return
 	}
@@ -241,7 +241,7 @@ func (m *RWMutex) RLock() {
 }
 
 func (m *RWMutex) RUnlock() {
-	if ex == nil {
+	if !live() {
 		m.real.RUnlock()
 		return
 	}
@@ -266,7 +266,7 @@ func (m *RWMutex) RUnlock() {
 }
 
 func (m *RWMutex) TryLock() bool {
-	if ex == nil {
+	if !live() {
 		return m.real.TryLock()
 	}
 	g := yield()
@@ -286,7 +286,7 @@ func (m *RWMutex) TryLock() bool {
 }
 
 func (m *RWMutex) TryRLock() bool {
-	if ex == nil {
+	if !live() {
 		return m.real.TryRLock()
 	}
 	g := yield()
@@ -330,7 +330,7 @@ func (w *WaitGroup) state() H {
 }
 
 func (w *WaitGroup) Add(delta int) {
-	if ex == nil {
+	if !live() {
 		w.real.Add(delta)
 		return
 	}
@@ -360,7 +360,7 @@ func (w *WaitGroup) Add(delta int) {
 func (w *WaitGroup) Done() { w.Add(-1) }
 
 func (w *WaitGroup) Wait() {
-	if ex == nil {
+	if !live() {
 		w.real.Wait()
 		return
 	}
@@ -406,7 +406,7 @@ func (o *Once) state() H {
 }
 
 func (o *Once) Do(f func()) {
-	if ex == nil {
+	if !live() {
 		o.real.Do(f)
 		return
 	}
@@ -475,7 +475,7 @@ func atomOf(p unsafe.Pointer, g *G) *obj {
 
 // AtomicPre is the scheduling point before an atomic operation; passive marks pure loads.
 func AtomicPre(passive bool) *G {
-	if ex == nil {
+	if !live() {
 		return nil
 	}
 	g := yield()
